@@ -42,7 +42,10 @@ let omat m = List.iter ovec m
 let ost x = om3 x.stE; ov3 x.str
 let beg tag seq label = pf "%s %d %s" tag seq label
 let fin () = pf "\n"
-let line tag seq label f = beg tag seq label; f (); fin ()
+(* a line whose value cannot be computed (exception inside f) leaves no partial output behind *)
+let line tag seq label f =
+  let n0 = Buffer.length buf in
+  (try beg tag seq label; f (); fin () with e -> Buffer.truncate buf n0; raise e)
 (* Results of the implementation (second command-line argument: the output file of the C++ driver on the same
    cases).  When present, the property residuals ("c" lines) are evaluated on the IMPLEMENTATION's results against
    the L3 specification, so that a residual line that fails is a concrete input on which the code breaks the property. *)
@@ -170,6 +173,9 @@ let spec_fext c (fe : float sV list option) : float sV list =
     let ids = List.rev c.ids and srefs = List.rev c.srefs in
     let tbl = Array.make nodes zsv in
     List.iter2 (fun id nk -> if nk >= 0 && id >= 0 && id < List.length l then tbl.(nk) <- List.nth l id) ids srefs;
+    (* a force on a massless intermediate body of an emulated multi-DoF joint has no node in the specification:
+       no oracle value for such a call (correspondence and the nle_is_id0 residual still apply) *)
+    List.iteri (fun i f -> if i > 0 && f <> zsv && not (List.exists2 (fun id nk -> id = i && nk >= 0) ids srefs) then raise Not_found) l;
     Array.to_list tbl
 let spec_tau c g q qd qdd fe = tau_np fo c.sp.snodes c.sp.ssph c.sp.sndof g q qd qdd (spec_fext c fe)
 let spec_H c q = let n = ndof c in
@@ -796,7 +802,14 @@ let run_line c (l : string) seq =
         let (w, tau) = nonlinear_effects fo m m.ws q qd (zeros n_qd) fe in
         setw c w; line "o" seq "nle" (fun () -> ovec tau);
         line "i" seq "wf" (fun () -> if order_ok m then os "1" else (os "0"; os "update_order_does_not_list_every_movable_body"));
-        spec_try (fun () -> line "s" seq "nle" (fun () -> ovec (spec_tau c m.gravity q qd (zeros n_qd) fe)))
+        spec_try (fun () -> line "s" seq "nle" (fun () -> ovec (spec_tau c m.gravity q qd (zeros n_qd) fe)));
+        (* N(q, qd, f_ext) = InverseDynamics(q, qd, 0, f_ext): the implementation's bias vector against the model's
+           inverse dynamics at zero acceleration (which corresponds to the implementation's InverseDynamics) *)
+        (let (_, t0v) = inverse_dynamics fo m m.ws q qd (zeros n_qd) (zeros n_qd) fe in
+         let iv = impl_or seq "nle" tau in
+         let res = List.fold_left2 (fun a x y -> max a (abs_float (x -. y))) 0. iv t0v in
+         let sc = List.fold_left (fun a x -> max a (abs_float x)) 1. t0v in
+         line "c" seq "nle_is_id0" (fun () -> od res; od sc))
       | "crba" ->
         let flag = integer t <> 0 in let q = vec t in
         let (w, h) = crba fo m m.ws q (gzero n_qd (nat_of_int n_qd)) flag in
